@@ -33,10 +33,11 @@ type Entry struct {
 }
 
 type Case struct {
-	ID     int     `json:"id"`
-	Hist   []Entry `json:"hist"`
-	Failed bool    `json:"failed"`
-	Tree   []Obj   `json:"tree"`
+	ID      int     `json:"id"`
+	Hist    []Entry `json:"hist"`
+	Failed  bool    `json:"failed"`
+	Tree    []Obj   `json:"tree"`
+	NoModel bool    `json:"nomodel"`
 }
 
 // Obj is one file-system object relative to the sandbox root.
@@ -284,7 +285,7 @@ func TestDrive(t *testing.T) {
 		tr := rot.Next()
 		tr.Begin(c.ID)
 		tr.Emit(map[string]any{"e": "tar", "case": c.ID, "hist": c.Hist, "failed": c.Failed, "exp": c.Tree, "got": inside,
-			"err": anyErr, "lasterr": lastErr, "outside": outside, "npush": len(errs)})
+			"err": anyErr, "lasterr": lastErr, "outside": outside, "npush": len(errs), "nomodel": c.NoModel})
 	}
 	rot.Close()
 	sum, _ := json.Marshal(map[string]any{"cases": n, "escapes": escapes, "files": rot.Files})
